@@ -42,6 +42,43 @@ CLAIMED["C01"] = (
     "DESIGN.md §4 C01",
 )
 
+RAFT_NOTE = (
+    "Trusted/assumed: the scratch crate is a verbatim copy of the current agdb_server/src/raft.rs with the single "
+    "substitution std::time::Instant -> virtual clock (asserted to match exactly once, else INCONCLUSIVE); the log store "
+    "is an array-backed implementation of the Storage trait mirroring ClusterStorage::append (remove uncommitted entries "
+    ">= index, then append); futures are polled once (they cannot suspend). Outside: thread/task interleavings, HTTP "
+    "transport, cluster-wide schedules (the composition of the per-node lemmas is a paper argument in DESIGN.md)."
+)
+
+CLAIMED["C27"] = (
+    "Per-node lemmas on the real Cluster state machine, decided for all symbolic message fields, timer firings and clock "
+    "advances within the bounds: (L1) a node never grants two candidates a vote in the same term (two Vote requests with "
+    "process() calls, clock advances and a PreVote in between); (L2) a candidate becomes leader only with Ok responses from "
+    "distinct nodes forming a strict majority (3 and 5 nodes, duplicated responses). L1 and L2 give at most one leader per "
+    "term by quorum intersection. The solver found the double vote in 41 s where a schedule explorer needs a timer to fire "
+    "between two specific messages.",
+    RAFT_NOTE,
+    "DESIGN.md §4 C27",
+)
+CLAIMED["C28"] = (
+    "One step of the real follower code from an ARBITRARY node state (symbolic stored entries, commit index, state, term) "
+    "under an arbitrary Heartbeat, and the decision function for offered entries under all u64 inputs: the commit index "
+    "never decreases, nothing is stored at or below it, committed entries stay bit-identical, a follower never commits "
+    "beyond what it holds. Inductive steps cover histories of any length for these single-node invariants.",
+    RAFT_NOTE + " Agreement ACROSS nodes (two nodes committing different entries at one index) is not decided: it needs "
+    "cluster schedules of ~25 steps; the full Append request path exceeded 36 GB in CBMC and is covered through its parts "
+    "(validate_log_append, append_storage, commit_storage via Heartbeat).",
+    "DESIGN.md §4 C28",
+)
+CLAIMED["C29"] = (
+    "Lemmas on the real code: (L6) a vote or pre-vote is granted only to a candidate whose log is at least as up to date "
+    "(Raft order) and whose commit index is not behind the voter's, for arbitrary voter state and all u64 header values; "
+    "(L7) a leader advances its commit index to i only if a strict majority holds an index >= i, never beyond its own log "
+    "(3 and 5 nodes, symbolic acknowledgement table).",
+    RAFT_NOTE + " Leader completeness itself (the global composition) is NOT decided; the evidence says lemmas L6, L7 only.",
+    "DESIGN.md §4 C29",
+)
+
 NOT_APPLICABLE = {
 }
 
